@@ -125,7 +125,8 @@ Record AuxT c : Prop := mkAuxT {
   A_tr : forall st, In st (sc_strms c) -> in_ring c (st_id st) = false;
   A_st : forall st, In st (sc_strms c) ->
          (st_state st = SOpen \/ st_state st = SHalfClosed) /\ st_weReset st = false /\
-         (st_responded st = true \/ st_handlerRunning st = true -> st_state st = SHalfClosed /\ st_headersFinished st = true);
+         (st_responded st = true \/ st_handlerRunning st = true -> st_state st = SHalfClosed /\ st_headersFinished st = true) /\
+         (st_state st = SHalfClosed -> st_headersFinished st = true -> st_responded st = true);
   A_snd : forall st, In st (sc_strms c) -> has_more_to_send st = true -> st_bodyStream st = None -> st_pendingEnd st = true
 }.
 
